@@ -170,6 +170,77 @@ def coq_net(d):
     return coq(out)
 
 
+def coq_body(layers):
+    """a branch (list of IR layers, code 10 = add the branch input) as a bexp of Model/SuperNet.v"""
+    e = 'BIn'
+    for l in layers:
+        if l[0] == 'F' and l[1] == 10:
+            e = '(BBin (0)%%Z %s BIn)' % e
+        else:
+            e = '(BApp %s %s)' % (coq_layer(l), e)
+    return Raw(e)
+
+
+def coq_gnet(d):
+    """Coq literal of type Plinio.Model.SuperNet.gnet (branch bodies as expressions: residuals are BBin nodes)"""
+    out = []
+    for n in d['ir']:
+        if n[0] == 'fixed':
+            out.append(Raw('(GFixed %s)' % coq(coq_layer(n[1]))))
+        else:
+            out.append(Raw('(GChoice %s %s)' % (coq(n[1]), coq([coq_body(br) for br in n[2]]))))
+    return coq(out)
+
+
+def term_layer(d, t):
+    return ('M', d['names'][t[1]]) if t[0] == 'Mod' else ('F', t[1])
+
+
+def term_sequence(d, gnet_term):
+    """node sequence (trace order) of an exported gnet as parsed from Coq output"""
+    def lin(e):
+        if e[0] == 'BIn':
+            return []
+        if e[0] == 'BApp':
+            return lin(e[2]) + [term_layer(d, e[1])]
+        if e[0] == 'BBin':
+            return lin(e[2]) + lin(e[3]) + [('F', 10 if e[1] == 0 else 'bin%r' % e[1])]
+        raise ValueError(e)
+    seq = []
+    for n in gnet_term:
+        if n[0] == 'GFixed':
+            seq.append(term_layer(d, n[1]))
+        elif n[0] == 'GBody':
+            seq += lin(n[1])
+        else:
+            seq.append(('CHOICE', n[1]))
+    return seq
+
+
+def eval_term(d, model, gnet_term, x, torch):
+    """evaluate an exported gnet (parsed Coq term) with the user's own modules"""
+    import torch.nn.functional as F
+
+    def ev(e, xin):
+        if e[0] == 'BIn':
+            return xin
+        if e[0] == 'BApp':
+            l = e[1]
+            return _apply_ir_layer(d, model, ('M', l[1]) if l[0] == 'Mod' else ('F', l[1]), ev(e[2], xin), None, F)
+        a, b = ev(e[2], xin), ev(e[3], xin)
+        assert e[1] == 0
+        return a + b
+    for n in gnet_term:
+        if n[0] == 'GFixed':
+            l = n[1]
+            x = _apply_ir_layer(d, model, ('M', l[1]) if l[0] == 'Mod' else ('F', l[1]), x, None, F)
+        elif n[0] == 'GBody':
+            x = ev(n[1], x)
+        else:
+            raise ValueError('choice block left in an exported network')
+    return x
+
+
 def invocations(d):
     """block id -> number of call sites"""
     c = {}
